@@ -31,6 +31,7 @@ type Src struct {
 	NOps     int    `json:"nops,omitempty"`    // operations per LZMA chunk (upper bound)
 	NChunks  int    `json:"nchunks,omitempty"` // chunks per block
 	NBlocks  int    `json:"nblocks,omitempty"`
+	Big      bool   `json:"big,omitempty"` // one LZMA chunk with more than 1 MiB of output
 	Check    byte   `json:"check,omitempty"`
 	DictCode byte   `json:"dictcode,omitempty"`
 	Sizes    int    `json:"sizes,omitempty"`    // bit0 compressed size field, bit1 uncompressed
@@ -228,7 +229,7 @@ func propsFrom(p *PRNG, lzma2 bool) ref.Props {
 }
 
 // ChunksFrom draws a legal chunk sequence (without end chunk).
-func ChunksFrom(p *PRNG, sim *ref.LZMA2Sim, nchunks, nops int, feats map[string]bool) []ref.ChunkSpec {
+func ChunksFrom(p *PRNG, sim *ref.LZMA2Sim, nchunks, nops int, feats map[string]bool, big bool) []ref.ChunkSpec {
 	var specs []ref.ChunkSpec
 	needD, needP := true, true
 	prevRaw := false
@@ -297,6 +298,47 @@ func ChunksFrom(p *PRNG, sim *ref.LZMA2Sim, nchunks, nops int, feats map[string]
 			}
 			prevRaw = false
 			cs.Ops = OpsFrom(p, sim, 1+int(p.Next()%uint64(nops)), 1<<20)
+			if big && !feats["chunk>1MiB"] && p.Next()%2 == 0 {
+				// a chunk with more than 1 MiB of output (the uncompressed size then
+				// needs bit 20, carried in the control byte): long matches at a
+				// short distance are cheap to encode
+				target := 1<<20 + 1 + int(p.Next()%(1<<20-600))
+				made := 0
+				for _, o := range cs.Ops {
+					switch o.Kind {
+					case ref.OpLit, ref.OpShortRep:
+						made++
+					default:
+						made += o.Len
+					}
+				}
+				if sim.Avail() == 0 {
+					o := ref.Op{Kind: ref.OpLit, Byte: byte(p.Next())}
+					sim.Apply(o)
+					cs.Ops = append(cs.Ops, o)
+					made++
+				}
+				for made < target {
+					l := target - made
+					if l > 273 {
+						l = 273
+					}
+					o := ref.Op{Kind: ref.OpMatch, Dist: uint32(p.Next() % uint64(min(sim.Avail(), 64))), Len: l}
+					if l < 2 {
+						o = ref.Op{Kind: ref.OpLit, Byte: 'z'}
+					}
+					if !sim.Apply(o) {
+						break
+					}
+					cs.Ops = append(cs.Ops, o)
+					if o.Kind == ref.OpLit {
+						made++
+					} else {
+						made += l
+					}
+				}
+				feats["chunk>1MiB"] = true
+			}
 			if len(cs.Ops) == 0 {
 				cs.Ops = []ref.Op{{Kind: ref.OpLit, Byte: byte(p.Next())}}
 				sim.Apply(cs.Ops[0])
@@ -330,7 +372,7 @@ func (s Src) buildRef() (*Built, error) {
 	case "lzma2":
 		ds, _ := ref.DictSizeForCode(s.DictCode)
 		sim := ref.NewSim(ds)
-		specs := ChunksFrom(p, sim, s.NChunks, s.NOps, feats)
+		specs := ChunksFrom(p, sim, s.NChunks, s.NOps, feats, s.Big)
 		specs = append(specs, ref.ChunkSpec{Kind: ref.CkEnd})
 		stream, plain, err := ref.EncodeLZMA2(specs, ds)
 		if err != nil {
@@ -347,7 +389,7 @@ func (s Src) buildRef() (*Built, error) {
 				nch = 0 // empty block
 				feats["empty_block"] = true
 			}
-			specs := ChunksFrom(p, sim, nch, s.NOps, feats)
+			specs := ChunksFrom(p, sim, nch, s.NOps, feats, s.Big)
 			specs = append(specs, ref.ChunkSpec{Kind: ref.CkEnd})
 			sp.Blocks = append(sp.Blocks, ref.BlockSpec{Chunks: specs, DictCode: s.DictCode, WithCSize: s.Sizes&1 != 0, WithUSize: s.Sizes&2 != 0, ExtraPad: s.ExtraPad})
 		}
@@ -576,6 +618,9 @@ func DrawSrc(t *rapid.T, format string, maxData int, origins ...string) Src {
 	case "ref":
 		s.Seed = rapid.Uint64().Draw(t, "seed")
 		s.NOps = rapid.SampledFrom([]int{1, 3, 20, 200, 1500}).Draw(t, "nops")
+		if maxData >= 30000 && format != "lzma" && rapid.IntRange(0, 15).Draw(t, "bigchunk") == 0 {
+			s.Big = true
+		}
 		switch format {
 		case "xz":
 			s.NBlocks = rapid.SampledFrom([]int{0, 1, 1, 2, 3}).Draw(t, "nblocks")
